@@ -248,8 +248,19 @@ func HarnessByHeight(k int) {
 // an error when a hash is unknown; no header when there is none. Stores in which a parent
 // was stored after its child (an orphan root that was never re-linked) are left out: "ancestor"
 // is ambiguous there (see HarnessAncestors).
-func HarnessCommonAncestor(k int, n int) {
+func HarnessCommonAncestor(k int, n int) { commonAncestor(k, n, false) }
+
+// HarnessCommonAncestorFork: the slice of HarnessCommonAncestor on the smallest store with two
+// branches of two headers each below a common root (5 rows), for lists of n hashes - the shape
+// in which some of the given headers converge above the point where another one joins them.
+func HarnessCommonAncestorFork(n int) { commonAncestor(5, n, true) }
+
+func commonAncestor(k int, n int, fork bool) {
 	pre, db, hs := setup(k)
+	if fork {
+		vh.Assume(vh.And(vh.HashEq(pre[1].Prev, pre[0].Hash), vh.HashEq(pre[2].Prev, pre[0].Hash),
+			vh.HashEq(pre[3].Prev, pre[1].Hash), vh.HashEq(pre[4].Prev, pre[2].Hash)))
+	}
 	for i := range pre {
 		for j := i + 1; j < len(pre); j++ {
 			vh.Assume(!vh.HashEq(pre[j].Hash, pre[i].Prev))
